@@ -240,7 +240,8 @@ def run_positions(ctx):
         for rep in range(ctx.pick(6, 40)):
             order = list(subset)
             rng.shuffle(order)
-            positions = {k: order.index(k) + 1 for k in order}
+            # the dictionary is written in an order of its own: box numbers, not key order, say which box is which
+            positions = {k: order.index(k) + 1 for k in rng.sample(order, len(order))}
             tpl, f, kind = rng.choice(SUMMANDS[:5])
             lo, hi = sorted([rng.randint(-5, 5), rng.randint(-5, 5)])
             hi = max(hi, lo + 1)
@@ -281,7 +282,7 @@ def run_positions(ctx):
             inp = sub if len(sub) > 1 or rng.random() < 0.5 else sub[0]
             out = lib.call(ctx, g, None, inp)
             ctx.ev()
-            wit = {'input_positions': positions, 'author': author, 'submission': inp, 'mutated': mutated}
+            wit = {'input_positions': positions, 'input_positions_key_order': list(positions), 'author': author, 'submission': inp, 'mutated': mutated}
             if want is None:
                 ctx.count('student_error_cases')
                 if out.returned or not lib.err_family(out.exc).startswith('StudentFacing'):
